@@ -127,12 +127,42 @@ def conversions(rep, cfg):
                 rep.ob("CONV/%s/%s::From<%s>" % (cfg.name, f, it), any(out.value is w for w in cands), "From<%s> must widen to u128 and use the u128 conversion; got %s" % (it, Tm.show(out.value, maxdepth=5)),
                        where=cfg.where(p), nontrivial=False)
         # --- ordering and hashing
+        def ms_first_chain(t, n):
+            """the limb pairs a three-way comparison looks at, most significant first, with each later pair consulted only when
+            all earlier pairs are equal: lexicographic comparison of the reversed arrays, or the explicit chain (in either scan
+            direction - `if l != r { ord = l.cmp(r) }` from the least significant limb up builds the same nest)"""
+            if t.op == "lex_cmp":
+                a, b = t.args
+                if a.op == "rev" and b.op == "rev":
+                    return [(Tm.index(a.args[0], lit(n - 1 - k)), Tm.index(b.args[0], lit(n - 1 - k))) for k in range(n)]
+                if a.op == "array" and b.op == "array" and len(a.args) == len(b.args):
+                    return list(zip(a.args, b.args))
+                return None
+            out_ = []
+            for _ in range(n + 1):
+                if t is variant("Equal"):
+                    return out_
+                if t.op == "icmp":
+                    return out_ + [(t.args[0], t.args[1])]
+                if t.op == "ite" and t.args[2].op == "icmp":
+                    c, rest, leaf = t.args
+                    l, r = leaf.args
+                    if c is Tm.eq(l, r) or c is Tm.eq(r, l) or c is Tm.eq(leaf, variant("Equal")):
+                        out_.append((l, r))
+                        t = rest
+                        continue
+                return None
+            return None
+
+        def want_chain(n):
+            S_, O_ = mk("param", "self"), mk("param", "other")
+            return [(Tm.index(mk("canon_limbs", S_), lit(n - 1 - k)), Tm.index(mk("canon_limbs", O_), lit(n - 1 - k))) for k in range(n)]
         p = find1(rep, cfg, "Ord(%s)" % f, r"^fields::%s::ops::<impl core::cmp::Ord for %s>::cmp$" % (f, re.escape(W)))
         if p:
             out = cfg.run(p, mode="glue")
             S_, O_ = mk("param", "self"), mk("param", "other")
             want = mk("lex_cmp", mk("rev", mk("canon_limbs", S_)), mk("rev", mk("canon_limbs", O_)))
-            rep.ob("ORD/%s/%s::cmp" % (cfg.name, f), out.value is want,
+            rep.ob("ORD/%s/%s::cmp" % (cfg.name, f), out.value is want or (ms_first_chain(out.value, LIMBS64[f]) == want_chain(LIMBS64[f]) and not out.unmodelled),
                    "ordering must compare the canonical limbs most-significant first (reverse both, then lexicographic): got %s" % Tm.show(out.value, maxdepth=5), where=cfg.where(p),
                    sample={"obligation": "ORD/%s/%s::cmp" % (cfg.name, f), "term": Tm.show(out.value, maxdepth=4)})
         p = find1(rep, cfg, "PartialOrd(%s)" % f, r"^fields::%s::ops::<impl core::cmp::PartialOrd for %s>::partial_cmp$" % (f, re.escape(W)))
@@ -140,7 +170,8 @@ def conversions(rep, cfg):
             out = cfg.run(p, mode="glue")
             S_, O_ = mk("param", "self"), mk("param", "other")
             want = variant("Some", mk("lex_cmp", mk("rev", mk("canon_limbs", S_)), mk("rev", mk("canon_limbs", O_))))
-            rep.ob("ORD/%s/%s::partial_cmp" % (cfg.name, f), out.value is want, "partial_cmp must be Some(cmp); got %s" % Tm.show(out.value, maxdepth=5), where=cfg.where(p), nontrivial=False)
+            inner_ = out.value.args[1] if out.value.op == "variant" and out.value.args[0] == "Some" and len(out.value.args) == 2 else mk("bottom")
+            rep.ob("ORD/%s/%s::partial_cmp" % (cfg.name, f), out.value is want or (ms_first_chain(inner_, LIMBS64[f]) == want_chain(LIMBS64[f]) and not out.unmodelled), "partial_cmp must be Some(cmp); got %s" % Tm.show(out.value, maxdepth=5), where=cfg.where(p), nontrivial=False)
         p = find1(rep, cfg, "Hash(%s)" % f, r"^fields::%s::ops::<impl core::hash::Hash for %s>::hash$" % (f, re.escape(W)))
         if p:
             out = cfg.run(p, mode="glue")
